@@ -1,9 +1,8 @@
 (** C13 - comparison runs always finish and leave no worker behind.  Statements only.
 
     Same model as C08 ([Equalizer/EqModel.v]).  C13 quantifies over scripts of hangs and worker deaths at any
-    positions: that is [clean_script] (every behaviour except a late answer / a worker dying before it takes its
-    task - the two mechanisms of known finding F08, for which the run can block forever, see the refuted
-    theorems).  Rates are arbitrary naturals (0 behaves as 1), timeouts arbitrary naturals (whole seconds). *)
+    positions: that is [clean_script] (every behaviour except a late answer, a worker dying before it takes its
+    task and an answer lost in transit - the three mechanisms of known finding F08, see the refuted theorems).  Rates are arbitrary naturals (0 behaves as 1), timeouts arbitrary naturals (whole seconds). *)
 From Coq Require Import List Arith Bool.
 From Playback Require Import Equalizer.EqModel Equalizer.EqFacts.
 Import ListNotations.
@@ -16,7 +15,7 @@ Theorem C13_wait_bounded : forall c s vs o s1, run_dedicated c s = (vs, o, s1) -
 Proof. exact wait_is_bounded. Qed.
 Print Assumptions C13_wait_bounded.
 
-(** Every run over hangs / deaths / slow / dropped answers completes; its modelled duration is the sum of the
+(** Every run over hangs / deaths / slow answers completes; its modelled duration is the sum of the
     per-recording costs (0 for an answer at once, 1 s to notice a dead worker, d for an answer after d s,
     timeout + 1 for a worker that has to be killed), hence at most (timeout + 1) per recording. *)
 Theorem C13_run_completes : forall c s, clean_script s ->
@@ -28,7 +27,7 @@ Proof.
 Qed.
 Print Assumptions C13_run_completes.
 
-(** After a recording whose worker had to be given up (exit, hang, dropped answer, answer after the timeout) - at
+(** After a recording whose worker had to be given up (exit, hang, answer after the timeout) - at
     any position: first, last, consecutive, on a recycle boundary - the parent holds no worker, every worker ever
     created is dead, and the next recording is served by a newly created worker that serves nothing else before. *)
 Theorem C13_failure_then_fresh_worker : forall c s1 l b s2,
@@ -96,7 +95,7 @@ Print Assumptions C13_no_worker_left_with_fresh_queues.
     completes in the computed time, and a fault position satisfies the hypotheses of the fresh-worker theorem *)
 Example C13_demo_script_is_clean : clean_script demo_script.
 Proof. exact demo_clean. Qed.
-Example C13_demo_duration : total_cost demo_cfg demo_script = 16.
+Example C13_demo_duration : total_cost demo_cfg demo_script = 13.
 Proof. reflexivity. Qed.
 Example C13_demo_fault : fate demo_cfg BHangs <> None /\ fate demo_cfg (BSlow 4) <> None /\ fate demo_cfg (BSlow 3) = None.
 Proof. repeat split; discriminate. Qed.
